@@ -3,7 +3,8 @@
    handler of the given router and endpoint; [success o] = the answer is 2xx; [registered rg g] =
    ValidateGrantType; [cred_valid c rg p pub] = the client authenticated in the way it is
    registered (DESIGN Appendix D); [authenticated rg p] = it proved possession of a credential
-   registered for it. All statements are relative to the storage contract written as
+   registered for it; [pl] = where grant_type, the client parameters and the grant artefact travel
+   (body / URL query / both) - every statement holds for every placement. All statements are relative to the storage contract written as
    [secret_ok] / [assertion_ok] in C05_Model.v. *)
 From OIDC Require Import Lib C05_Model C05_spec C05_proofs.
 
@@ -11,43 +12,47 @@ From OIDC Require Import Lib C05_Model C05_spec C05_proofs.
    outside the recorded gap: a 2xx answer implies provider flag / storage capability on,
    grant registered, and the credential of the registered method (jwt-bearer: the grant
    assertion is signed by a key registered for its issuer). *)
-Theorem C05_token_partial : forall r c rg p g,
+Theorem C05_token_partial : forall r c rg p g pl,
   (r = RProvider /\ g = GDevice /\ registered rg GDevice = false -> False) ->
-  success (model (mkInput r EToken c rg p g)) = true ->
+  names_other p = false ->
+  success (model (mkInput r EToken c rg p g pl)) = true ->
   token_justified c rg p g = true.
 Proof. exact token_partial. Qed.
 Print Assumptions C05_token_partial.
 
 (* The same without the guard is what the property asks; the code does not meet it
    (finding Fxx-C05-4: Provider router, device_code grant, grant not registered). *)
-Theorem C05_token_refuted : ~ (forall r c rg p g,
-  success (model (mkInput r EToken c rg p g)) = true -> token_justified c rg p g = true).
+Theorem C05_token_refuted : ~ (forall r c rg p g pl,
+  names_other p = false ->
+  success (model (mkInput r EToken c rg p g pl)) = true -> token_justified c rg p g = true).
 Proof. exact token_refuted. Qed.
 Print Assumptions C05_token_refuted.
 
 (* Inside the gap everything except the grant registration is still enforced. *)
-Theorem C05_token_gap : forall c rg p,
-  registered rg GDevice = false ->
-  success (model (mkInput RProvider EToken c rg p GDevice)) = true ->
+Theorem C05_token_gap : forall c rg p pl,
+  registered rg GDevice = false -> names_other p = false ->
+  success (model (mkInput RProvider EToken c rg p GDevice pl)) = true ->
   c_dev c = true /\ cred_valid c rg p true = true.
 Proof. exact token_gap. Qed.
 Print Assumptions C05_token_gap.
 
-Theorem C05_introspect : forall r c rg p g,
-  success (model (mkInput r EIntrospect c rg p g)) = true -> authenticated rg p = true.
+Theorem C05_introspect : forall r c rg p g pl,
+  names_other p = false ->
+  success (model (mkInput r EIntrospect c rg p g pl)) = true -> authenticated rg p = true.
 Proof. exact introspect_statement. Qed.
 Print Assumptions C05_introspect.
 
-Theorem C05_revoke : forall r c rg p g,
-  success (model (mkInput r ERevoke c rg p g)) = true ->
+Theorem C05_revoke : forall r c rg p g pl,
+  names_other p = false ->
+  success (model (mkInput r ERevoke c rg p g pl)) = true ->
   authenticated rg p = true \/ (r_known rg = true /\ r_meth rg = MNone /\ identifies p = true).
 Proof. exact revoke_statement. Qed.
 Print Assumptions C05_revoke.
 
 (* [names_other p]: the request names the second client Y (see C05_acts_for_self) *)
-Theorem C05_device_authz : forall r c rg p g,
+Theorem C05_device_authz : forall r c rg p g pl,
   names_other p = false ->
-  success (model (mkInput r EDeviceAuthz c rg p g)) = true ->
+  success (model (mkInput r EDeviceAuthz c rg p g pl)) = true ->
   r_known rg = true /\ identifies p = true /\ registered rg GDevice = true.
 Proof. exact device_authz_statement. Qed.
 Print Assumptions C05_device_authz.
@@ -66,15 +71,24 @@ Theorem C05_total : forall i, exists s e tok act w, model i = ORes s e tok act w
 Proof. exact model_total. Qed.
 Print Assumptions C05_total.
 
-(* Cross-client requests (a valid credential of X together with the id of a second,
-   confidential client Y, and Y's code / refresh token / device code / token): nothing is ever
-   issued, revoked or disclosed in Y's name, except a device code when the request names Y -
-   which needs no authentication. [w] = the client the answer acted for. *)
-Theorem C05_acts_for_self : forall i s e tok act w,
-  model i = ORes s e tok act w -> w = WOther ->
-  i_endpoint i = EDeviceAuthz /\ names_other (i_pres i) = true.
-Proof. exact acts_for_self. Qed.
-Print Assumptions C05_acts_for_self.
+(* Cross-client requests: a second client Y (registered with method vm, never presenting its
+   own credential) owns the code / refresh token / device code / token of the case, and the
+   request mixes a valid credential of X with Y's id. [names_other p]: Y's id sits in the slot
+   the parsers read (Basic before form; the last of two client_id values) - the theorems above
+   then speak about X only when it is false. [w] = the client the answer acted for. Whatever is
+   issued, revoked or reported active in Y's name is justified by Y's own registration for a
+   request that merely names Y ... *)
+Theorem C05_acts_for_other : forall i s e tok act,
+  model i = ORes s e tok act WOther -> other_justified i = true.
+Proof. exact acts_for_other. Qed.
+Print Assumptions C05_acts_for_other.
+
+(* ... hence never for a confidential Y, except a device code (which needs no authentication). *)
+Theorem C05_never_for_confidential : forall i s e tok act vm,
+  model i = ORes s e tok act WOther -> victim_of (i_pres i) = Some vm -> vm <> MNone ->
+  i_endpoint i = EDeviceAuthz.
+Proof. exact never_for_confidential. Qed.
+Print Assumptions C05_never_for_confidential.
 
 (* The property predicate evaluated by the correspondence run holds of the model on every
    input outside the gap, and fails inside it. *)
@@ -87,25 +101,26 @@ Proof. exact spec_model_refuted. Qed.
 Print Assumptions C05_spec_model_refuted.
 
 (* The refusals the property text names. *)
-Theorem C05_unknown_client_refused : forall r e c rg p g,
-  r_known rg = false -> names_other p = false -> success (model (mkInput r e c rg p g)) = false.
+Theorem C05_unknown_client_refused : forall r e c rg p g pl,
+  r_known rg = false -> names_other p = false -> success (model (mkInput r e c rg p g pl)) = false.
 Proof. exact unknown_client_refused. Qed.
 Print Assumptions C05_unknown_client_refused.
 
-Theorem C05_wrong_secret_refused : forall r e c rg p g,
+Theorem C05_wrong_secret_refused : forall r e c rg p g pl,
   has_secret (r_meth rg) = true -> presents_right_secret p = false -> presents_ok_assertion p = false ->
   e <> EDeviceAuthz -> g <> GBearer ->
-  success (model (mkInput r e c rg p g)) = false.
+  success (model (mkInput r e c rg p g pl)) = false.
 Proof. exact wrong_secret_refused. Qed.
 Print Assumptions C05_wrong_secret_refused.
 
-Theorem C05_unregistered_grant_refused : forall r c rg p g,
+Theorem C05_unregistered_grant_refused : forall r c rg p g pl,
   registered rg g = false -> g <> GBearer -> (r = RProvider /\ g = GDevice -> False) ->
-  success (model (mkInput r EToken c rg p g)) = false.
+  names_other p = false ->
+  success (model (mkInput r EToken c rg p g pl)) = false.
 Proof. exact unregistered_grant_refused. Qed.
 Print Assumptions C05_unregistered_grant_refused.
 
-Theorem C05_disabled_grant_refused : forall r c rg p g,
-  capability c g = false -> success (model (mkInput r EToken c rg p g)) = false.
+Theorem C05_disabled_grant_refused : forall r c rg p g pl,
+  capability c g = false -> names_other p = false -> success (model (mkInput r EToken c rg p g pl)) = false.
 Proof. exact disabled_grant_refused. Qed.
 Print Assumptions C05_disabled_grant_refused.
